@@ -496,7 +496,7 @@ func c03R2R4R5(p *Prog, r *Report) {
 					if e == ssa.Value(count) {
 						pred := ph.Block().Preds[i]
 						for _, c := range append(controllingIfs(pred), ctrlOfEdge(pred, ph.Block())...) {
-							if bo, ok := c.If.Cond.(*ssa.BinOp); ok && bo.Op == token.LSS && bo.X == ssa.Value(count) && c.Branch == 0 {
+							if lx, _, side, ok := strictLess(c.If.Cond); ok && lx == ssa.Value(count) && side == c.Branch {
 								okMin = true
 							}
 						}
@@ -525,10 +525,51 @@ func c03R2R4R5(p *Prog, r *Report) {
 			trim = c
 		}
 	})
+	// the first-number step written in place: queue[0].SequenceNumber() (minus the sync offset) of a group
+	isFirstVal := func(v ssa.Value) bool {
+		ex, ok := v.(*ssa.Extract)
+		return ok && first != nil && ex.Tuple == ssa.Value(first)
+	}
+	var firstRecv ssa.Value
+	if first != nil {
+		firstRecv = first.Call.Args[0]
+	} else {
+		Instrs(fn, func(in ssa.Instruction) {
+			c, ok := in.(*ssa.Call)
+			if !ok || c.Call.StaticCallee() == nil || c.Call.StaticCallee().Name() != "SequenceNumber" || len(c.Call.Args) == 0 {
+				return
+			}
+			u, ok := c.Call.Args[0].(*ssa.UnOp)
+			if !ok {
+				return
+			}
+			ia, ok := u.X.(*ssa.IndexAddr)
+			if !ok {
+				return
+			}
+			if k, isC := constInt(ia.Index); !isC || k != 0 {
+				return
+			}
+			if _, f, base, okf := FieldOf(ia.X); okf && f == "queue" {
+				first = c
+				firstRecv = base
+			}
+		})
+		if first != nil {
+			call := first
+			isFirstVal = func(v ssa.Value) bool {
+				if v == ssa.Value(call) {
+					return true
+				}
+				bo, ok := v.(*ssa.BinOp)
+				return ok && bo.Op == token.SUB && bo.X == ssa.Value(call)
+			}
+		}
+	}
 	if fill == nil || first == nil || trim == nil || count == nil {
 		r.Bad("C03.R4", "fill / first-number / trim / count calls present in the tick", p.Pos(fn.Pos()), "a step of the alignment is missing")
 	} else {
-		sameRecv := fill.Call.Args[0] == first.Call.Args[0]
+		sameRecv := fill.Call.Args[0] == firstRecv
 		r.Check(InstrDominates(fill, first) && sameRecv, "C03.R4", "per group, gaps are filled before the group's first sequence number is taken", p.InstrPos(first), "fillMissingPackets dominates firstSeqNum on the same group",
 			"a group's first sequence number is taken before its gaps are filled: a lost first packet makes the alignment trim real packets of the other groups and the filler is discarded again")
 		r.Check(!sameTightLoop(trim.Block(), first.Block()) && InstrReaches(first, trim), "C03.R4", "all first numbers are known before any group is trimmed", p.InstrPos(trim), "the trim loop follows the loop that finds the largest first number", "groups are trimmed before the largest first sequence number over all groups is known")
@@ -544,7 +585,7 @@ func c03R2R4R5(p *Prog, r *Report) {
 				}
 				seen[ph] = true
 				for _, e := range ph.Edges {
-					if ex, ok := e.(*ssa.Extract); ok && ex.Tuple == ssa.Value(first) {
+					if isFirstVal(e) {
 						okMax = true
 					}
 					if p2, ok := e.(*ssa.Phi); ok {
@@ -800,8 +841,8 @@ func c03R3(p *Prog, r *Report) {
 	okFill := false
 	if pretend != nil {
 		for _, c := range append(controllingIfs(pretend.Block()), ctrlOfEdgeInto(pretend.Block())...) {
-			if bo, ok := c.If.Cond.(*ssa.BinOp); ok && bo.Op == token.LSS && c.Branch == 0 {
-				if call, ok := bo.Y.(*ssa.Call); ok && call.Call.StaticCallee() != nil && call.Call.StaticCallee().Name() == "SequenceNumber" {
+			if _, ly, side, ok := strictLess(c.If.Cond); ok && side == c.Branch {
+				if call, ok := ly.(*ssa.Call); ok && call.Call.StaticCallee() != nil && call.Call.StaticCallee().Name() == "SequenceNumber" {
 					okFill = true
 				}
 			}
